@@ -159,6 +159,14 @@ func c09Sub(c *core.Ctx, t *tape.Tape, cfg gCfg, faults bool, cut int, kind stri
 	if c.Failed() {
 		return steps, false
 	}
+	if (kind == "restart+close" || kind == "close") && g.leftAtClose > 0 {
+		// Close waits for the gathering it cancels - also for a cycle that Restart cancelled before: when it
+		// returns none of the agent's goroutines may still sit in a listen, an allocation or a loop submission
+		// (it would still own a socket). (Not demanded after restart+gather+close: there Close waits for the
+		// new cycle only.)
+		c.Failf("C09/gatherer-still-running-after-close", "%s: Close returned while %d call(s) of the agent's gathering goroutines were still pending in the simulator (listen / allocate / loop submission)", where, g.leftAtClose)
+		return steps, false
+	}
 	if kind == "restart+close" || kind == "close" || kind == "restart+gather+close" {
 		// "after Close has returned": no simulated time may pass, only quiescence is awaited
 		synctest.Wait()
